@@ -45,7 +45,7 @@ HOSTILE_KEYS = PROTECTED + ['child', 'create', 'stop', 'cancel', 'node_without_r
 CUSTOM_META = ['x_meta', '_priv', 'trace']
 SPECIAL_TEXT = ['~~~', 'a~~~b', '~~~~', 'x~~~~~~y', '~', '~~', '"value":', '{"value": 1}', '\\', '\\u007e', 'name', '"', "'", '\n', '\x00', '€', '\U0001f600', '}~~~{']
 SPECIAL_KEYS = ['value', 'name', 'id', 'meta', 'channels', 'args', 'a', 'b', 'k1', 'a b', '~~~', '']
-KW_KEYS = ['a', 'b', 'value', 'name', 'id', 'meta', 'cls', '_name', 'channels', 'args', 'kwargs', 'x y', 'k~~~']
+KW_KEYS = ['a', 'b', 'c', 'd', 'e', 'f', 'g', 'h', 'i', 'j', 'value', 'name', 'id', 'meta', 'cls', '_name', 'channels', 'args', 'kwargs', 'x y', 'k~~~']
 FORGED_KW_KEYS = KW_KEYS + ['self', 'event']
 BAD_IDS = [-1, -7, 10 ** 9, 'x', '0', None, [], {}, 0.5, [1], {'a': 1}]
 
@@ -171,7 +171,7 @@ def _forged():
 def _spec(tier):
     wave = st.fixed_dictionaries({
         'sends': st.lists(_event(tier), min_size=0, max_size=4),
-        'forged': st.one_of(st.just([]), st.just([]), st.lists(_forged(), min_size=1, max_size=3))})
+        'forged': st.one_of(st.just([]), st.lists(_forged(), min_size=1, max_size=3))})
     fw = st.fixed_dictionaries({'send': st.lists(st.sampled_from(NAMES), max_size=2, unique=True),
                                 'recv': st.lists(st.sampled_from(NAMES), max_size=2, unique=True),
                                 'always': st.booleans()})
@@ -234,8 +234,9 @@ class C19(Prop):
                    'module globals); all simulated processes live in one interpreter',
                    'a hostile peer may answer its own connection arbitrarily: forged value packets use ids that are never allocated',
                    'hostile packets are delimiter-terminated; an unterminated hostile packet legitimately garbles what follows on that connection',
-                   'result order of several coroutine handlers of one event is not asserted')
-    budget = {'quick': (350, 4), 'thorough': (4000, 16)}
+                   'result order of several coroutine handlers of one event is not asserted',
+                   'Manager._tasks of the simulated processes is an insertion-ordered double of the set (determinism of replays)')
+    budget = {'quick': (800, 4), 'thorough': (5000, 16)}
 
     def setup(self):
         driver.quiet_process()
